@@ -26,6 +26,7 @@ def run(chk):
 
 
 MUTANTS = [
+    ("verdict overwritten per pair", "yastn/tensor/_algebra.py", "        mask_needed_ab, _ = _unpack_trans_test_axes_pair(a, b, sgn=1)\n        mask_needed = mask_needed or mask_needed_ab", "        mask_needed, _ = _unpack_trans_test_axes_pair(a, b, sgn=1)", "F2"),
     ("verdict dropped in tensordot", "yastn/tensor/_contractions.py", "    mask_needed, (nin_a, nin_b) = _unpack_trans_test_axes_pair(a, b, sgn=-1, axes=(in_a, in_b))\n    # nin_a and nin_b take into account",
      "    _, (nin_a, nin_b) = _unpack_trans_test_axes_pair(a, b, sgn=-1, axes=(in_a, in_b))\n    mask_needed = False\n    # nin_a and nin_b take into account", "F2"),
     ("vdot keeps old hfs", "yastn/tensor/_contractions.py", "            b = _apply_mask_axes(b, nin_b, msk_b)\n            a = a._replace(hfs=a_hfs)\n            b = b._replace(hfs=b_hfs)\n        meta_vdot", "            b = _apply_mask_axes(b, nin_b, msk_b)\n        meta_vdot", "F2"),
@@ -35,5 +36,6 @@ MUTANTS = [
      "        msk_a, msk_b, a_hfs, b_hfs = _mask_tensors_leg_intersection(a, b, nin_a, nin_b)\n        a = _apply_mask_axes(a, in_a, msk_a)\n        b = _apply_mask_axes(b, nin_b, msk_b)\n        a = a._replace(hfs=a_hfs)\n        b = b._replace(hfs=b_hfs)\n\n    if a.config.tensordot_policy", "F3"),
 ]
 BENIGN = [
+    ("verdict accumulated with |=", "yastn/tensor/_algebra.py", "        mask_needed = mask_needed or mask_needed_ab", "        mask_needed |= mask_needed_ab"),
     ("rename verdict", "yastn/tensor/_contractions.py", "    mask_needed, (nin_0, nin_1) = _unpack_trans_test_axes_pair(a, a, sgn=-1, axes=(in_0, in_1))", "    mask_needed, (nin_0, nin_1) = _unpack_trans_test_axes_pair(a, a, axes=(in_0, in_1), sgn=-1)"),
 ]
